@@ -19,7 +19,7 @@ namespace DS.Props.C16
 open DS.Peg DS.Gen.Opcodes
 
 theorem memoOK_empty (g : Gate) : MemoOK g ({} : Memo) := by
-  intro pos id b e _ h
+  intro pos id b e fl _ h
   simp at h
 
 /-- generic instantiation: a gate whose static check holds keeps its opcodes out of every parse that ran no macro -/
